@@ -224,8 +224,8 @@ def real_options(spec):
 class Tree:
     """one mutable instance of a program: `root` (PSyIR root), optional `psy`"""
 
-    def __init__(self, root, psy=None):
-        self.root, self.psy = root, psy
+    def __init__(self, root, psy=None, api=None):
+        self.root, self.psy, self.api = root, psy, api
 
 
 class Program:
@@ -271,7 +271,7 @@ class Program:
                 k.get_kernel_schedule()
             except Exception:  # pylint: disable=broad-except
                 pass
-        tree = Tree(root, psy)
+        tree = Tree(root, psy, api)
         warm_up(tree)
         return self._history(tree)
 
@@ -381,9 +381,10 @@ def code_of(tree):
     from psyclone.psyGen import CodedKern
     try:
         with contextlib.redirect_stdout(io.StringIO()):
-            if tree.psy is not None:
+            if tree.psy is not None and not str(tree.api).startswith("gocean"):
                 txt = str(tree.psy.gen)
             else:
+                # generic PSyIR, and GOcean (whose psy.gen lowers the PSy-layer tree IN PLACE: the writer lowers a copy)
                 from psyclone.psyir.backend.fortran import FortranWriter
                 txt = FortranWriter()(tree.root)
     except Exception as err:  # pylint: disable=broad-except
@@ -401,14 +402,30 @@ def code_of(tree):
     return txt
 
 
+def outside_tree():
+    """state outside the PSyIR that changes the code written by LATER transformations: the PSyData region-name
+    counters (a bumped counter renames every later region), and files written into the scratch directory"""
+    out = []
+    try:
+        from psyclone.psyir.transformations.psy_data_trans import PSyDataTrans
+        out.append("region-name counters: " + repr(sorted(PSyDataTrans._used_kernel_names.items())))
+    except Exception:  # pylint: disable=broad-except
+        pass
+    try:
+        out.append("files: " + repr(sorted(os.listdir("."))))
+    except OSError:
+        pass
+    return "\n".join(out)
+
+
 def snapshot(tree):
     # structure first: code generation of the PSy layer may add symbols lazily; `fresh` has
     # already generated once, so both parts are stable afterwards (checked by `stable`)
-    return structure(tree.root) + "\n=====\n" + code_of(tree)
+    return structure_of(tree) + "\n=====\n" + code_of(tree)
 
 
 def structure_of(tree):
-    return structure(tree.root)
+    return structure(tree.root) + "\n" + outside_tree()
 
 
 def first_diff(a, b):
@@ -545,7 +562,7 @@ def describe_target(tree, t):
 
 # ---------------------------------------------------------------------------------------------
 # one attempt
-def attempt(tree, cls, variant, target, optspec, before=None, snapfn=None):
+def attempt(tree, cls, variant, target, optspec, before=None, snapfn=None, monitor=False):
     """-> dict(outcome = accepted | refused | error:<Type> | skip, changed = bool, diff, message)"""
     from psyclone.psyir.transformations import TransformationError
     snapfn = snapfn or snapshot
@@ -562,6 +579,9 @@ def attempt(tree, cls, variant, target, optspec, before=None, snapfn=None):
         return {"outcome": "skip", "changed": False, "message": f"target: {type(err).__name__}"}
     opts = real_options(optspec)
     msg = ""
+    if monitor:
+        from props import c26_monitor
+        c26_monitor.start(tree.root)
     try:
         with contextlib.redirect_stdout(io.StringIO()), contextlib.redirect_stderr(io.StringIO()):
             trans.apply(*args, options=opts)
@@ -574,6 +594,8 @@ def attempt(tree, cls, variant, target, optspec, before=None, snapfn=None):
     except Exception as err:  # pylint: disable=broad-except
         outcome, msg = "error:" + type(err).__name__, str(err)[:300]
     res = {"outcome": outcome, "changed": False, "message": msg}
+    if monitor:
+        res["events"] = c26_monitor.stop()
     if outcome == "refused":
         res["phase"], res["where"] = phase, where
     if outcome != "accepted":
@@ -653,6 +675,8 @@ class Sweep:
         self.other = []           # non-TransformationError exceptions that changed the tree
         self.late = collections.Counter()   # (trans, where) of refusals raised after validate
         self.accepted = {}        # transformation name -> one accepted (variant, target, options): seeds of histories
+        self.safe_skeletons = set()   # classes whose extracted skeleton is safe: monitored (see c26_monitor)
+        self.nonconforming = []       # refusals of such classes that were preceded by a mutation event
         self.n = 0
         self.tree = None
         self.pending = []
@@ -696,8 +720,15 @@ class Sweep:
 
     def do(self, cls, variant, target, optspec):
         self.n += 1
-        res = attempt(self.tree, cls, variant, target, optspec, before=self.base_s, snapfn=structure_of)
+        mon = self.tree.psy is None and cls.__name__ in self.safe_skeletons
+        res = attempt(self.tree, cls, variant, target, optspec, before=self.base_s, snapfn=structure_of, monitor=mon)
         out = res["outcome"]
+        if mon:
+            self.stats["monitored"] += 1
+            if out == "refused" and res.get("events"):
+                self.nonconforming.append({"program": self.prog.spec, "trans": cls.__name__, "variant": variant,
+                                           "target": target, "options": optspec, "events": res["events"][:6],
+                                           "where": res.get("where"), "changed": res["changed"]})
         self.stats[out.split(":")[0]] += 1
         if out == "refused":
             self.stats["refused_in_" + res["phase"]] += 1
